@@ -163,6 +163,7 @@ structure GCtx where
   abase : Nat → Nat := fun _ => 0      -- word address of the global array with the given id
   asize : Nat → Nat := fun _ => 0      -- its length
   rho : String → Option Word := fun _ => none   -- the global `val` constants
+  strs : List (String × List Byte) := []          -- the string literals, with their labels
 
 def GCtx.S (G : GCtx) (pi : PInfo) : Nat := (frameOf G.cg pi.idx).size
 def GCtx.xl (G : GCtx) (pi : PInfo) : String := (frameOf G.cg pi.idx).exitLabel
@@ -222,7 +223,11 @@ theorem GCtx.locOf_cases (G : GCtx) (pi : PInfo) (sp : Nat) (n : String) (a : Na
 def KOf (G : GCtx) (pi : PInfo) (sp dep : Nat) (hi : Nat → Word) : PCtx :=
   { env := G.env, out := G.cg, ctx := G.ctxOf pi, xc := G.xc, ρ := G.rho, sp := sp,
     loc := G.locOf pi sp, consts := G.consts, nlocals := pi.p.locals.length, hi := hi,
-    gnames := G.gnames ++ G.pnames, dep := dep, abase := G.abase, asize := G.asize }
+    gnames := G.gnames ++ G.pnames, dep := dep, abase := G.abase, asize := G.asize, strs := G.strs }
+
+/-- The pool of the whole program. -/
+def GCtx.items (G : GCtx) : List PoolItem :=
+  (G.consts.map fun e => PoolItem.const e.1 e.2) ++ (G.strs.map fun e => PoolItem.str e.1 e.2)
 
 /-- The same program context without its arrays (for facts that do not depend on them). -/
 def GCtx.noArr (G : GCtx) : GCtx := { G with asize := fun _ => 0 }
@@ -253,7 +258,7 @@ structure GCtx.OK (G : GCtx) : Prop where
   gen : ∀ pi ∈ G.procs, genStmt (G.ctxOf pi) (optStmt (annotS G.rho pi.p.body)) pi.gs1 = .ok (pi.code, pi.gs2)
   size_ok : ∀ pi ∈ G.procs, pi.gs2.size ≤ G.S pi
   nl_ok : ∀ pi ∈ G.procs, pi.p.locals.length ≤ pi.gs1.offset
-  consts_ok : ∀ pi ∈ G.procs, ∀ e ∈ pi.gs2.constMap, e ∈ G.consts
+  consts_ok : ∀ pi ∈ G.procs, ∀ x ∈ pi.gs2.items, x ∈ G.items
   smax_ok : ∀ pi ∈ G.procs, G.S pi ≤ G.smax
   body_ok : ∀ pi ∈ G.procs, okS5 G.pk G.pnames G.xc.impure G.rho pi.p.body = true
   pure_ok : G.pk = true → PureOk G.xc
